@@ -6,8 +6,9 @@
    Byron: the library hands untrusted CBOR to cbor2, an oracle in the model.  The characterisation is relative to
    the parsers; "every accepted string is the encoder's output" holds exactly when the parsers accept canonical
    CBOR only ([byron_accepted_partial]) and is refuted with parsers that satisfy every law the round-trip theorem
-   assumes ([byron_canonical_refuted]: a non-minimal integer head; bytes after the CBOR item -- the second is
-   what cbor2.loads really does: finding C10-BYRON-TRAILING). *)
+   assumes ([byron_canonical_refuted]: a non-minimal integer head, which RFC 8949 allows and cbor2 accepts).  Bytes
+   after the CBOR item were accepted too before the repair of finding C10-BYRON-TRAILING; now [parse_outer] /
+   [parse_payload] stand for a reader that demands exactly one item. *)
 From Coq Require Import NArith ZArith Arith List Lia Bool.
 From BU Require Import Base.Exn Base.Radix Base.Bytes Gen.Consts Gen.ConstsCardmon.
 From BU Require Import Model.EdLib Model.CborEnc Model.Bip32Kholaw Model.AddrAdaShelley Model.AddrAdaByron.
@@ -152,47 +153,32 @@ Section Byron.
 End Byron.
 
 (* ---- refutation: parsers that satisfy every law the round-trip theorem (Lemmas/AddrAdaByron.v) assumes of
-   cbor2, and two accepted strings that are not the encoder's output ---- *)
-(* like Lemmas.CborEnc.toy_parse_outer, but -- as cbor2.loads does -- ignoring whatever follows the item *)
-Definition lenient_parse_outer (b : list N) : option (N * list N * N) :=
-  match parse_head b with
-  | Some (4, 2, t) =>
-    match parse_head t with
-    | Some (6, tag, t2) =>
-      match parse_bstr t2 with
-      | Some (v, t3) => match parse_head t3 with Some (0, c, _) => Some (tag, v, c) | _ => None end
-      | None => None
-      end
-    | _ => None
-    end
-  | _ => None
-  end.
-
-Lemma lenient_parse_outer_enc crc tag p : (length p < 4096)%nat -> tag < 2 ^ 64 -> crc p < 2 ^ 64 ->
-  lenient_parse_outer (cbor_array [cbor_tag tag (cbor_bytes p); cbor_uint (crc p)]) = Some (tag, p, crc p).
-Proof.
-  intros H Ht Hc. unfold lenient_parse_outer, cbor_array, cbor_tag, cbor_uint. cbn [length N.of_nat concat].
-  rewrite (parse_head_enc 4 2) by reflexivity. cbn [Pos.of_succ_nat Pos.succ].
-  rewrite app_nil_r, <- !app_assoc, (parse_head_enc 6 tag _ Ht), (parse_bstr_enc p _ H).
-  rewrite <- (app_nil_r (cbor_head 0 (crc p))), (parse_head_enc 0 _ [] Hc). reflexivity.
-Qed.
-
+   cbor2, and an accepted string that is not the encoder's output ---- *)
 Definition zero_crc (_ : list N) : N := 0.
 Definition zero28 (_ : list N) : list N := repeat 0 28.
 
 (* s1: the encoder's address (Icarus style, no path) of an all-zero key under the constant-zero hashes;
-   s2: the same CBOR with the CRC written in the two-byte form 18 00 instead of 00;
-   s3: the encoder's CBOR followed by one more byte *)
-Theorem byron_canonical_refuted : exists s1 s2 s3 out,
-  encode_key zero28 zero28 zero_crc [] [] None = s1 /\ s2 <> s1 /\ s3 <> s1 /\
+   s2: the same CBOR with the CRC written in the two-byte form 18 00 instead of 00 (well-formed CBOR, RFC 8949) *)
+Theorem byron_canonical_refuted : exists s1 s2 out,
+  encode_key zero28 zero28 zero_crc [] [] None = s1 /\ s2 <> s1 /\
   decode_addr zero_crc toy_parse_outer toy_parse_payload toy_parse_bytes s1 = Ok out /\
-  decode_addr zero_crc toy_parse_outer toy_parse_payload toy_parse_bytes s2 = Ok out /\
-  decode_addr zero_crc lenient_parse_outer toy_parse_payload toy_parse_bytes s3 = Ok out.
+  decode_addr zero_crc toy_parse_outer toy_parse_payload toy_parse_bytes s2 = Ok out.
 Proof.
   set (payload := payload_cbor (repeat 0 28) None ada_byron_type_pubkey).
   exists (b58enc (addr_cbor zero_crc payload)),
-         (b58enc (cbor_head 4 2 ++ cbor_tag ada_byron_payload_tag (cbor_bytes payload) ++ [24; 0])),
-         (b58enc (addr_cbor zero_crc payload ++ [0])), (repeat 0 28).
-  split; [vm_compute; reflexivity|]. split; [vm_compute; discriminate|]. split; [vm_compute; discriminate|].
+         (b58enc (cbor_head 4 2 ++ cbor_tag ada_byron_payload_tag (cbor_bytes payload) ++ [24; 0])), (repeat 0 28).
+  split; [vm_compute; reflexivity|]. split; [vm_compute; discriminate|].
+  split; vm_compute; reflexivity.
+Qed.
+
+(* a byte after the CBOR item: refused by a reader that demands exactly one item (the toy parser does) *)
+Theorem byron_trailing_byte_rejected : exists s1 s3 out,
+  encode_key zero28 zero28 zero_crc [] [] None = s1 /\
+  b58dec s3 = rmap (fun b => b ++ [0]) (b58dec s1) /\
+  decode_addr zero_crc toy_parse_outer toy_parse_payload toy_parse_bytes s1 = Ok out /\
+  decode_addr zero_crc toy_parse_outer toy_parse_payload toy_parse_bytes s3 = Err ValueError.
+Proof.
+  set (payload := payload_cbor (repeat 0 28) None ada_byron_type_pubkey).
+  exists (b58enc (addr_cbor zero_crc payload)), (b58enc (addr_cbor zero_crc payload ++ [0])), (repeat 0 28).
   repeat split; vm_compute; reflexivity.
 Qed.
